@@ -189,6 +189,116 @@ def validateOp (dims : List Int) : Op → VState → Except Err VState
 def validate (cfg : Cfg) (dims : List Int) (plan : List Step) (s : VState) : Except Err VState :=
   plan.foldlM (fun acc st => if st.guard.holds cfg then validateOp dims st.op acc else .ok acc) s
 
+/-- **flat decision list** (specification of the glue, proved equal to `validate` on both plans in
+`Lemmas/C01Validate.lean`): which exception `fft2` / `ifft2` raise, in priority order, else the result
+shape / dtype.  `oor` = some `dim` entry is not an axis of the (complex) tensor, `empty` = some
+transformed axis has length 0. -/
+def validateSpec (cfg : Cfg) (dims : List Int) (s : VState) : Except Err VState :=
+  if !dims.all dimOk then .error .typeError else
+  if cfg.complexInput && s.shape.getLast? ≠ some 2 then .error .assertionError else
+  if cfg.complexInput && s.dtype.viewComplex = none then .error .runtimeError else
+  let shape := if cfg.complexInput then s.shape.dropLast else s.shape
+  let dt := if cfg.complexInput then (s.dtype.viewComplex).getD .other else s.dtype
+  let oor := dims.any (fun d => d.toNat ≥ shape.length)
+  let empty := dims.any (fun d => shape.getD d.toNat 1 == 0)
+  if cfg.centered && oor then .error .indexError else
+  if cfg.centered && empty then .error .zeroDivisionError else
+  if dt == .float32 && oor then .error .indexError else
+  if !(dtypeOk dt (dims.map fun d => shape.getD d.toNat 1)) then .error .valueError else
+  if oor then .error .indexError else
+  if hasDup dims then .error .runtimeError else
+  if empty then .error .runtimeError else
+  .ok { shape := if cfg.complexInput then shape ++ [2] else shape,
+        dtype := if cfg.complexInput then dt.afterFft.viewReal else dt.afterFft }
+
+/-- the shape both plans have: check `dim`, optional complex view, optional `ifftshift`, the guarded
+transform, optional `fftshift`, optional real view -/
+def stdPlan (inv : Bool) (nT nF : Norm) : List Step :=
+  [⟨.always, .checkDims⟩, ⟨.complexInput, .viewComplex⟩, ⟨.centered, .ishift⟩,
+   ⟨.always, .transform inv nT nF⟩, ⟨.centered, .fshift⟩, ⟨.complexInput, .viewReal⟩]
+
+/-! ## Re-implementations of the centred transform outside `direct/data/transforms.py`
+
+`direct/data/fake.py: fft / ifft` and `direct/data/datasets.py: SheppLoganDataset.fft` spell the centred
+transform out with numpy (`np.fft.ifftshift → np.fft.(i)fft2(norm="ortho") → np.fft.fftshift`).  The translator
+reads their statement / call nesting order and the axes of every stage into a `Reimpl`; `Reimpl.ok` says
+"this is the centred orthonormal plan of `fft2` / `ifft2`, every stage over the same explicit axes". -/
+
+/-- axes argument of one numpy stage: `none` = omitted for a shift (numpy: *all* axes) -/
+abbrev AxesArg := Option (List Int)
+
+structure Reimpl where
+  inverse : Bool
+  steps : List Step
+  axes : List AxesArg
+deriving DecidableEq, Repr
+
+/-- the centred orthonormal plan on a complex array (what `fft2`/`ifft2` do for `centered=True,
+normalized=True, complex_input=False`, without the `dim` check) -/
+def centredPlan (inverse : Bool) : List Step :=
+  [⟨.always, .ishift⟩, ⟨.always, .transform inverse .ortho .ortho⟩, ⟨.always, .fshift⟩]
+
+def Reimpl.ok (r : Reimpl) : Bool :=
+  r.steps == centredPlan r.inverse &&
+  match r.axes with
+  | some a :: rest => rest.all (· == some a) && r.axes.length == 3 && a.length == 2 && !hasDup a
+  | _ => false
+
+/-- `SheppLoganDataset.fft` as it was on the pinned tree: `fftshift` (all axes) before, `ifftshift` (all axes)
+after the transform over axes (1, 2) -/
+def sheppPinned : Reimpl :=
+  { inverse := false
+    steps := [⟨.always, .fshift⟩, ⟨.always, .transform false .ortho .ortho⟩, ⟨.always, .ishift⟩]
+    axes := [none, some [1, 2], none] }
+
+/-! ## Structural facts about the functions of `transforms.py` and about their call sites -/
+
+inductive Fn | fft2 | ifft2 | roll | rollOneDim | fftshift | ifftshift | verifyDtype | viewAsComplex | viewAsReal
+deriving DecidableEq, Repr
+
+/-- what the translator counts in the AST of one function -/
+structure FnFacts where
+  fn : Fn
+  /-- `global` / `nonlocal` statements -/
+  globals : Nat
+  /-- stores to attributes, to subscripts of names that are not lists created inside the function, and to
+  names of the enclosing module -/
+  foreignStores : Nat
+  /-- in-place operations on a tensor argument: augmented assignment, `x[...] = …`, methods ending in `_`,
+  `out=` keywords -/
+  inplace : Nat
+  decorators : Nat
+  /-- mutable default arguments (a list / dict / set / call as default) -/
+  mutableDefaults : Nat
+  /-- `return` statements that are not the last statement of the body -/
+  earlyReturns : Nat
+deriving DecidableEq, Repr
+
+/-- no state kept across calls, no in-place update of an argument, no early exit that skips the plan (the one
+early `return data` of `roll_one_dim` for a zero shift is part of the model: `rollOne`) -/
+def FnFacts.pure (f : FnFacts) : Bool :=
+  f.globals == 0 && f.foreignStores == 0 && f.inplace == 0 && f.decorators == 0 && f.mutableDefaults == 0 &&
+  f.earlyReturns == (if f.fn == .rollOneDim then 1 else 0)
+
+/-- a call of `fft2` / `ifft2` (directly, or through a `forward_operator` / `backward_operator` handle) somewhere under
+`direct/`: the axis tuples the `dim` argument can evaluate to (literals, or the `_spatial_dims` literals of the same
+file, shifted when the call says `d - k for d in …`), and the flags it overrides -/
+structure CallSite where
+  /-- file index, line (for the replay) -/
+  file : Nat
+  line : Nat
+  /-- `false` when the `dim` expression has a form the scanner does not understand -/
+  understood : Bool
+  dims : List (List Int)
+  /-- overrides `(flag, value)`: flag 0 = centered, 1 = normalized, 2 = complex_input; any other keyword = 9 -/
+  overrides : List (Nat × Bool)
+deriving DecidableEq, Repr
+
+def dimsAcceptable (d : List Int) : Bool := d.all dimOk && !hasDup d && (d.length == 2 || d.length == 3)
+
+def CallSite.ok (c : CallSite) : Bool :=
+  c.understood && c.dims.all dimsAcceptable && c.overrides.all (fun o => o.1 < 3)
+
 /-! ## Symbolic execution on basis tensors -/
 
 /-- `none` = 0; `some es` = the monomial `Π_a exp(-2πi·es[a] / n_a)` (one exponent per tensor axis).
